@@ -252,12 +252,16 @@ Proof. intros A B o f b H. destruct o; cbn in H; try discriminate. eauto. Qed.
 Lemma ok_inj : forall A (a b : A), Ok a = Ok b -> a = b.
 Proof. intros A a b H. now inversion H. Qed.
 
-Lemma parse_headers_wf : forall h a d st',
-  parse_headers false h a d st_init = Ok st' -> gen_wf allowed_keys st'.
+Lemma parse_headers_wf : forall h f t c b d st',
+  parse_headers false h f t c b d st_init = Ok st' -> gen_wf allowed_keys st'.
 Proof.
-  intros h a d st' H. unfold parse_headers in H.
+  intros h f t c b d st' H. unfold parse_headers in H.
   apply bind_ok_inv in H. destruct H as [st2 [H2 H]].
-  destruct (negb a); [discriminate|]. destruct (negb d); [discriminate|]. apply ok_inj in H. subst st'.
+  destruct (aerr f || aerr t || aerr c || aerr b)%bool; [discriminate|].
+  assert (H' : exists v, st' = copy_common false (common_headers false) h
+                 (set_gen (set_addrs st2 (mka (firstn 1 (alist f)) (alist t) (alist c) (alist b))) hdr_date v)).
+  { destruct d; [eexists; now apply ok_inj in H | discriminate | eexists; now apply ok_inj in H]. }
+  clear H. destruct H' as [v ->].
   assert (Hg : m_gen st2 = []).
   { unfold parse_ct_charset in H2. destruct (is_empty (hget h hdr_content_type)).
     - inversion H2; subst. unfold parse_encoding.
@@ -409,7 +413,7 @@ Proof. intros. apply rerender_fields_nodup. eapply parse_eml_fixed_wf; eassumpti
 
 (* ---------- before the repair: Content-Type twice ---------- *)
 Definition single_part_msg : top :=
-  mktop true true true
+  mktop true ANone ANone ANone ANone DNone
     (Entity [(hdr_content_type, bs "text/plain; charset=UTF-8"); (hdr_content_transfer_enc, bs "quoted-printable");
              (hdr_subject, bs "s")]
             (MTOk type_text_plain (Some charset_utf8) false) bits_ok [] true).
@@ -447,7 +451,7 @@ Lemma body_phase_enc_local : forall fnof legacy p d st1 st',
   hvals (e_hdr p) hdr_content_disposition = [] ->
   body_phase fnof legacy p d st1 = Ok st' ->
   st' = st1 \/
-  exists ct cs enc, st' = set_parts st1 (m_parts st1 ++ [mkp ct cs enc]) /\
+  exists ct cs enc content, st' = set_parts st1 (m_parts st1 ++ [mkp ct cs enc content]) /\
                     part_enc_of_hdr (e_hdr p) = Some enc.
 Proof.
   intros fnof legacy p d st1 st' Hcd H. unfold body_phase in H. rewrite Hcd in H.
@@ -462,7 +466,7 @@ Proof.
     apply go_index_0_inv in He0. destruct He0 as [t Ht].
     destruct (classify_cte e0) as [enc|] eqn:Ec; [|discriminate].
     destruct (bytes_eqb enc enc_b64 && negb (d || b64d_ok (e_bits p)))%bool; [discriminate|].
-    right. exists contentType. eexists. exists enc. split; [now inversion H|].
+    right. exists contentType. eexists. exists enc. eexists. split; [now inversion H|].
     unfold part_enc_of_hdr. now rewrite Ht.
 Qed.
 
@@ -477,7 +481,7 @@ Proof.
   intros fnof legacy p d1 d2 s1 s2 s1' s2' x1 x2 Hcd H1 H2 E1 E2.
   assert (K : forall d s s' x, body_phase fnof legacy p d s = Ok s' -> m_parts s' = m_parts s ++ [x] ->
               part_enc_of_hdr (e_hdr p) = Some (p_enc x)).
-  { intros d s s' x H E. destruct (body_phase_enc_local _ _ _ _ _ _ Hcd H) as [->|[ct [cs [enc [-> He]]]]].
+  { intros d s s' x H E. destruct (body_phase_enc_local _ _ _ _ _ _ Hcd H) as [->|[ct [cs [enc [content [-> He]]]]]].
     - exfalso. assert (L : length (m_parts s) = length (m_parts s ++ [x])) by now rewrite <- E.
       rewrite app_length in L. cbn in L. lia.
     - cbn [set_parts m_parts] in E. apply app_inv_head in E. inversion E; subst. exact He. }
